@@ -71,7 +71,7 @@ def jobs(tier, seed):
             if ok and any(op in ("f1", "f2") for op in h):
                 hist.append(list(h))
     js = []
-    for cls in ("ThresholdOptimizer", "CorrelationRemover", "GridSearch", "ExponentiatedGradient", "Adversarial", "AdversarialAuto", "ThresholdOptimizerGroups"):
+    for cls in ("ThresholdOptimizer", "CorrelationRemover", "GridSearch", "ExponentiatedGradient", "Adversarial", "AdversarialAuto", "ThresholdOptimizerGroups", "ThresholdOptimizerTrain"):
         for ci in range(0, len(hist), 12):
             js.append({"id": f"{cls}-{ci // 12}", "cls": cls, "histories": hist[ci:ci + 12]})
     torch_hist = [h for h in hist if "k" not in h and "c" not in h and len(h) <= 3]
@@ -285,6 +285,56 @@ class TOGroupsAdapter(TOAdapter):
         return list(est.predict(np.arange(6).reshape(-1, 1), sensitive_features=[tc.GROUPS[v] for v in self.G6], random_state=seed))
 
 
+class _WarmLearner(tc.Scorer):
+    """a wrapped estimator that KEEPS state across calls of its own fit (warm_start-style: label counts per feature value accumulate).  A meta-estimator
+    that trains a fresh clone on every fit never shows the accumulation; one that re-uses a trained copy does."""
+
+    def __init__(self, prior=1):
+        self.prior = prior
+
+    def __sklearn_is_fitted__(self):
+        return hasattr(self, "table_")
+
+    def fit(self, X, y, **kw):
+        table = getattr(self, "table_", {})
+        for v, lab in zip(np.asarray(X)[:, 0], list(y)):
+            c, p = table.get(int(v), (0, 0))
+            table[int(v)] = (c + 1, p + int(lab))
+        self.table_ = table
+        self.classes_ = np.array([0, 1])
+        return self
+
+    def predict_proba(self, X):
+        s = np.array([(self.table_.get(int(v), (0, 0))[1] + 0.5 * self.prior) / (self.table_.get(int(v), (0, 0))[0] + self.prior) for v in np.asarray(X)[:, 0]], dtype=float)
+        return np.stack([1 - s, s], axis=1)
+
+
+class TOTrainAdapter(Adapter):
+    """prefit=False: ThresholdOptimizer trains the wrapped estimator itself; the two data sets carry opposite labels"""
+    symbolic = False
+    g = [0, 0, 1, 1]
+
+    def datasets(self, mk):
+        return {"f1": [1, 0, 1, 0], "f2": [0, 1, 0, 1]}
+
+    def make(self):
+        from fairlearn.postprocessing import ThresholdOptimizer
+
+        return ThresholdOptimizer(estimator=_WarmLearner(prior=1), constraints="demographic_parity", objective="accuracy_score", grid_size=4, prefit=False,
+                                  predict_method="predict_proba")
+
+    def fit(self, est, D):
+        return est.fit(np.arange(4).reshape(-1, 1), list(D), sensitive_features=[tc.GROUPS[v] for v in self.g])
+
+    def observe(self, est, D):
+        X = np.arange(4).reshape(-1, 1)
+        pm = est._pmf_predict(X, sensitive_features=[tc.GROUPS[v] for v in self.g])
+        return [round(float(v), 12) for v in np.asarray(pm, dtype=float)[:, 1]] + [round(float(v), 12) for v in est.estimator_.predict_proba(X)[:, 1]]
+
+    def predict(self, est, D, seed):
+        return list(est.predict(np.arange(4).reshape(-1, 1), sensitive_features=[tc.GROUPS[v] for v in self.g], random_state=seed))
+
+
 class AdvAutoAdapter(AdvAdapter):
     """the 'automatic' sentinel values of the schedule parameters: batch_size=-1 (one batch = all rows of the data being fitted)"""
     epochs, batch_size = 2, -1
@@ -329,7 +379,8 @@ class AdvTorchAdapter(Adapter):
         return p
 
 
-ADAPTERS = {"AdvTorch": AdvTorchAdapter, "ThresholdOptimizer": TOAdapter, "CorrelationRemover": CRAdapter, "GridSearch": GSAdapter, "ExponentiatedGradient": EGAdapter, "Adversarial": AdvAdapter, "AdversarialAuto": AdvAutoAdapter, "ThresholdOptimizerGroups": TOGroupsAdapter}
+ADAPTERS = {"AdvTorch": AdvTorchAdapter, "ThresholdOptimizer": TOAdapter, "CorrelationRemover": CRAdapter, "GridSearch": GSAdapter, "ExponentiatedGradient": EGAdapter, "Adversarial": AdvAdapter, "AdversarialAuto": AdvAutoAdapter, "ThresholdOptimizerGroups": TOGroupsAdapter,
+            "ThresholdOptimizerTrain": TOTrainAdapter}
 
 
 def _eq_params(a, b):
